@@ -15,6 +15,7 @@ import random
 from typing import Any, Dict, List, Optional, Tuple
 
 from gen.formulas import features_with_grammar
+from gen.grammars import grammar_features
 from gen.formulas import gen_formula, uses
 from gen.grammars import make_grammar
 from oracles.grammar import (
@@ -528,6 +529,7 @@ def _run(plan, world: World, monitors: Monitors, record):
                     "solver": i,
                     "signature": sig,
                     "detail": f"{sig['type']} at {sig['site']}: {sig['raw']}",
+                    "features": features_with_grammar(sc["formula"], sc["grammar"]) + setting_tags(sc["settings"]) + grammar_features(sc["grammar"]),
                 }
             )
             continue
